@@ -1,14 +1,27 @@
 #!/bin/bash
-# tools/run_against_seed.sh <patch> <check ids...> : apply a seeded patch to /repo, run the checks (quick), undo
-P=$1; shift
+# tools/run_against_seed.sh <seed-id | patch file> <check ids...>
+# apply a seeded change to /repo, run the checks (TIER, default quick), undo; for a seed id the outcome is
+# merged into /verif/seeded/<id>/caught.json
+A=$1; shift
+if [ -f "$A" ]; then P=$A; ID=""; else P=/verif/seeded/$A/patch.diff; ID=$A; fi
 cd /repo && git apply --check $P || { echo "patch does not apply"; exit 2; }
 git -C /repo apply $P
 # evidence written while /repo is modified must not survive: keep the committed files aside
 rm -rf /tmp/evidence_keep && cp -r /verif/evidence /tmp/evidence_keep
 for c in "$@"; do
-  cd /verif && timeout 1500 ./check $c ${TIER:-quick} > /tmp/seedrun_$c.log 2>&1; rc=$?
-  echo "$c exit=$rc $(grep -c '^VIOLATION' /tmp/seedrun_$c.log) violation line(s); $(grep 'violation \[' /tmp/seedrun_$c.log | sed 's/.*violation \[\([^]]*\)\].*/\1/' | sort | uniq -c | head -4 | tr '\n' ';')"
+  cd /verif && timeout 1800 ./check $c ${TIER:-quick} > /tmp/seedrun_$c.log 2>&1; rc=$?
+  sigs=$(grep 'violation \[' /tmp/seedrun_$c.log | sed 's/.*violation \[\([^]]*\)\].*/\1/' | sort | uniq -c | sort -rn | head -4 | awk '{print $2}' | tr '\n' ' ')
+  echo "$c exit=$rc $(grep -c '^VIOLATION' /tmp/seedrun_$c.log) violation line(s); $sigs"
+  if [ -n "$ID" ]; then
+    python3 - "$ID" "$c" "$rc" "${TIER:-quick}" "${VERIF_SEED:-default}" $sigs <<'PY'
+import json,sys,os
+id,c,rc,tier,seed,*sigs=sys.argv[1:]
+p=f'/verif/seeded/{id}/caught.json'
+d=json.load(open(p)) if os.path.exists(p) else {}
+d[c]={"exit":int(rc),"tier":tier,"seed":seed,"signatures":sigs}
+json.dump(d,open(p,'w'),indent=1,sort_keys=True)
+PY
+  fi
 done
 git -C /repo checkout -- .
 rm -rf /verif/evidence && mv /tmp/evidence_keep /verif/evidence
-
